@@ -7,7 +7,7 @@ import common, l3, jsonx
 from checks.c01 import _get_by_pos
 
 PID = "C12"
-PAIRS = {"w": "base", "wall": "all", "wrepl": "repl", "wsel": "sel"}
+PAIRS = {"w": "base", "wall": "all", "wrepl": "repl", "wsel": "sel", "weager": "eager"}
 
 
 def components(name, full_ns=False):
@@ -119,7 +119,18 @@ def judge(byc, res):
                 l3.add_violation(res, "one name, two pseudonyms across lines flags=%s" % flags, rw, {"name": a, "pseudonyms": [g[(wname, a)], b]})
         # --- confinement: the flag changes nothing but namespace positions
         lab = {lf.path: lf.lab for lf in rw.leaves}
+        # under --redactFieldNames keys are renamed, so output paths differ from input paths: labels by position (shape is preserved)
+        out_leaves = jsonx.leaves(rw.out)
+        if len(out_leaves) == len(rw.leaves):
+            lab = {op: lf.lab for (op, _), lf in zip(out_leaves, rw.leaves)}
         for ev in l3.walk_both(rb.out, rw.out):
+            if wname == "weager":
+                # $merge / $out cannot occur inside a sub-pipeline (they must end the top-level pipeline): below such a stage the
+                # generator's lines are outside the grammar, and what --redactFieldNames does to their argument names is not claimed
+                pth = ev[1]
+                nested = [i for i, x in enumerate(pth) if x in ("$merge", "$out") and i > 4]
+                if nested:
+                    continue
             if ev[0] == 'shape' or (ev[0] == 'key' and ev[2] != ev[3]):
                 l3.add_violation(res, "--redactNamespaces changes the structure / a key at %s flags=%s" % (l3.abstract_path(ev[1]), flags), rw, {"flag_off_output": rb.raw[:3000]})
                 break
@@ -134,7 +145,11 @@ def judge(byc, res):
 def cfgs(tier):
     cs = [l3.Cfg("base"), l3.Cfg("w", ns=True), l3.Cfg("all", num=True, bool=True, ips=True), l3.Cfg("wall", ns=True, num=True, bool=True, ips=True),
           # --redactNamespaces together with --redactFieldsRegexp: names must still be gone although selective mode keeps what does not match
-          l3.Cfg("sel", re="anch", match_keys=("zzsecretA",)), l3.Cfg("wsel", re="anch", ns=True, match_keys=("zzsecretA",))]
+          l3.Cfg("sel", re="anch", match_keys=("zzsecretA",)), l3.Cfg("wsel", re="anch", ns=True, match_keys=("zzsecretA",)),
+          # ... and together with --redactFieldNames (the flag must change nothing but namespaces there either)
+          # (the planted database names all start with "Dbq" / "70": these prefixes switch field-name redaction on for most lines;
+          #  the specification decides that from the abstract namespace relation, so no drift comparison for these two)
+          l3.Cfg("eager", eager=True, eager_ns="Dbq", nodrift=True), l3.Cfg("weager", eager=True, ns=True, eager_ns="Dbq", nodrift=True)]
     if tier == "thorough":
         cs += [l3.Cfg("repl", replacement="Ωx"), l3.Cfg("wrepl", replacement="Ωx", ns=True)]
     return cs
